@@ -213,6 +213,8 @@ impl Ctx {
         install_panic_hook();
         let build = if cfg!(miri) {
             "miri"
+        } else if cfg!(stunmon_asan) {
+            "asan"
         } else if cfg!(debug_assertions) {
             "checked"
         } else {
